@@ -119,8 +119,9 @@ pub fn gen_pawn_contract() {
     generation_for_kind(spec::P, sq)
 }
 pub fn gen_slider_contract(kind: u8, sq: usize) { generation_for_kind(kind, sq) }
-/// pawns never stand on the first or last rank (WF8): those 16 instances are trivially true
-pub fn gen_pawn_at(sq: usize) { if sq >= 8 && sq < 56 { generation_for_kind(spec::P, sq) } }
+/// all 64 squares: the FEN reader accepts pawns on the first / last rank, and the generator's unchecked
+/// steps must stay on the board there too (C15); the rules give such a pawn no forward moves
+pub fn gen_pawn_at(sq: usize) { generation_for_kind(spec::P, sq) }
 
 // ---- king: is_targeted replaced by an oracle (its own contract is O1.1) ----------------------------
 #[cfg(kani)]
